@@ -1264,3 +1264,28 @@ def free_locals(n):
     """(name, id) of locals used in n that are bound outside n."""
     inner = bound_inside(n)
     return [(x["n"], x["id"]) for x in walk(n) if x.get("k") == "local" and x.get("id") not in inner]
+
+
+def pattern_str_lits(n):
+    """string literals used as patterns in match arms / if-let below n"""
+    out = []
+
+    def rec(p):
+        if not isinstance(p, dict):
+            return
+        if p.get("k") == "lit" and p.get("t") == "str":
+            out.append(p["v"])
+        for k in ("sub", "alts", "fields"):
+            v = p.get(k)
+            if isinstance(v, dict):
+                rec(v)
+            elif isinstance(v, list):
+                for x in v:
+                    rec(x.get("p") if isinstance(x, dict) and "p" in x and "k" not in x else x)
+    for x in walk(n):
+        if x.get("k") == "match":
+            for a in x["arms"]:
+                rec(a["pat"])
+        elif x.get("k") in ("let", "letst"):
+            rec(x.get("pat"))
+    return out
